@@ -1,8 +1,9 @@
 (* Extraction of the GENERATED definitions (translator validation for C13). ExtrOcamlBasic only. *)
 From Coq Require Import ZArith List Extraction ExtrOcamlBasic.
 From MomoCommon Require Import GenPrelude.
-From C13 Require Gen_Open2N2 Gen_OpenN1 Gen_Open8 ProbeSeq.
+From C13 Require Gen_Open2N2 Gen_OpenN1 Gen_Open8 Gen_BucketBase ProbeSeq OpenTable OpenInstances.
 Separate Extraction
   Gen_Open2N2.pvGetMaxProbe Gen_Open2N2.UpdateMaxProbe Gen_Open2N2.pvGetCount Gen_Open2N2.GetNextBucketIndex
   Gen_OpenN1.GetMaxProbe Gen_OpenN1.UpdateMaxProbe Gen_OpenN1.pvGetCount
-  Gen_Open8.GetNextBucketIndex ProbeSeq.probe_index.
+  Gen_Open8.GetNextBucketIndex ProbeSeq.probe_index Gen_BucketBase.GetStartBucketIndex
+  OpenTable.add OpenTable.find OpenTable.bk OpenTable.bd OpenInstances.upd2 OpenInstances.updN.
